@@ -642,10 +642,23 @@ def stage_trees(ctx):
         bases = [Uniform(ulo, uhi) if rng.random() < 0.6 else Uniform(ulo, uhi, ulo + (uhi - ulo) * rng.choice([0.25, 0.75])),
                  Gaussian(rng.randint(2, 12) / 4.0, rng.choice([0.125, 0.25, 0.0625])),
                  BoundedGaussian(rng.randint(4, 12) / 4.0, 0.5, 0.25, rng.choice([INF, 8.0]))]
+        if k % 3 == 0:
+            # the same kind of priors written with whole numbers as python ints (Uniform(1, 4, guess=3), Gaussian(5, ...)): the
+            # guess of a derived prior is then an int, its samples are not
+            ilo = rng.randint(1, 3)
+            ihi = ilo + rng.randint(2, 5)
+            bases = [Uniform(ilo, ihi, rng.randint(ilo, ihi)), Gaussian(rng.randint(1, 4), rng.choice([0.125, 0.25, 0.0625])),
+                     BoundedGaussian(rng.randint(1, 3), 0.5, 0.25, rng.choice([INF, 8.0]))]
+            ulo, uhi = float(ilo), float(ihi)
+            ctx.count("tree:integer-typed-bases")
         bdesc = [dict(uniform=[ulo, uhi, float(bases[0].guess)]), dict(gaussian=[bases[1].mu, bases[1].sd]),
                  dict(bgaussian=[bases[2].mu, bases[2].sd, bases[2].lower_bound, bases[2].upper_bound])]
         depth = rng.choice([1, 2, 2, 3, 3, 3])
         s = gen_tree(rng, depth, 3, need_prior=rng.random() < 0.95)
+        while k % 3 == 0 and "URecip" in repr(s):
+            # np.reciprocal of a python / numpy INTEGER is integer division (np.reciprocal(3) == 0): "the same operation applied to
+            # the base guess" is then that integer result, which the real-number reference here does not model - not generated
+            s = gen_tree(rng, depth, 3, need_prior=True)
         meta = dict(kind="tree", tree=s, bases=bdesc)
         try:
             obj = build(s, bases)
